@@ -16,6 +16,7 @@ import importlib
 import json
 import math
 import os
+import re
 import sys
 import types
 import warnings
@@ -1470,6 +1471,10 @@ def covered(a, msg):
         if hit:
             return hit
         if not has_odd_enum(a):
+            return None
+        # the defect shows as source that does not compile or that names something the class does not have
+        # (`Cls.a-b`, `Cls.class`, `Cls.1x`): a wrong VALUE or a refusal on such an input is something else
+        if not re.match(r"exec of the rendered source raised (SyntaxError|AttributeError|NameError)\b", msg):
             return None
 
         def fix(j):
